@@ -610,7 +610,20 @@ def state_pipeline_table(ctx, rule):
         ('progress', {'_label': 'prog'}, []), ('input', {'type': 'checkbox', 'indeterminate': '', '_label': 'ind'}, [])])])]
     rows_f = [(':indeterminate', ['o1', 'free', 'prog', 'ind']), (':checked', ['i1']), (':default', ['sub0', 'i1']), (':placeholder-shown', ['ph']),
               ('input:enabled', ['o1', 'sub0', 'i1', 'i2', 'sub1', 'free', 'ph', 'phv', 'ph0', 'ind']), (':disabled', [])]
-    _rows_table(ctx, rule, 'state', [('dir=auto with invalid dir values below', 'html', TD, None, rows_d), ('nested forms and radio groups', 'html', TF, None, rows_f)],
+    # the context of a state pseudo-class is found inside the element's own document: nothing crosses an iframe boundary
+    TI = [('html', {'_label': 'root', 'lang': 'fr'}, [('body', {'dir': 'rtl'}, [
+        ('form', {'_label': 'oform'}, [
+            ('input', {'type': 'radio', 'name': 'g', '_label': 'orad'}, []),
+            ('iframe', {'_label': 'frame'}, [('html', {'_label': 'iroot'}, [('body', {}, [
+                ('input', {'type': 'submit', '_label': 'isub'}, []), ('input', {'type': 'radio', 'name': 'g', 'checked': '', '_label': 'irad'}, []),
+                ('p', {'_label': 'ip'}, [HE])])])]),
+            ('input', {'type': 'submit', '_label': 'osub'}, [])]),
+        ('div', {'dir': 'auto', '_label': 'auto'}, [('iframe', {}, [('html', {}, [('body', {}, [HE])])]), 'latin']),
+        ('p', {'_label': 'op'}, [])])])]
+    rows_i = [(':default', ['irad', 'osub']), (':indeterminate', ['orad']), ('p:dir(rtl)', ['op']), ('p:dir(ltr)', ['ip']), ('html:dir(ltr)', ['root', 'iroot', 'html']),
+              ('div:dir(ltr)', ['auto']), ('p:lang(fr)', ['op']), ('html:lang(fr)', ['root']), ('form input:checked', ['irad']), ('form :root', ['iroot'])]
+    _rows_table(ctx, rule, 'state', [('dir=auto with invalid dir values below', 'html', TD, None, rows_d), ('nested forms and radio groups', 'html', TF, None, rows_f),
+                                     ('state across an iframe boundary', 'html', TI, None, rows_i)],
                 'soupsieve/css_match.py (match_dir / find_bidi / match_indeterminate / match_default / match_placeholder_shown)',
                 'the HTML Standard (directionality of dir=auto skips only children whose dir attribute is in a defined state; a radio group is the '
                 'same-named radio buttons with the same form owner)')
